@@ -38,7 +38,35 @@ def int_leaves():
 
 
 def is_const(t):
-    return t[0] == 'c' or t[0] == 'sl'
+    return t[0] == 'c' or t[0] == 'sl' or t[0] == 'ct'
+
+
+KIND_CONSTS = [['ct', []], ['ct', [5]], ['ct', [1, 2]], ['ct', [1, 2, 3]], ['ct', [[1, 2], 3]], ['c', None], ['c', 1.5], ['c', 'x'], ['c', 'ab'], ['c', b''],
+               ['c', []], ['c', [1, 2]], ['c', True]]
+
+
+def const_kind_family():
+    """constants of every kind a Python expression may hold - tuples of length 0..3, None, floats, text, empty and non-empty
+    strings and lists - as an operand in either position, as an option of chooses / if_true_then_else, and indexed afterwards"""
+    out = []
+    for kc in KIND_CONSTS:
+        for f in (['f', 'a'], ['f', 's'], ['f', 'd']):
+            for op in ('eq', 'ne', 'mul', 'add', 'lt', 'mod'):
+                out.append(['bin', op, f, kc])
+                out.append(['bin', op, kc, f])
+        out.append(['bin', 'eq', ['bin', 'getitem', ['f', 's'], ['sl', None, 2]], kc])
+        out.append(['bin', 'ne', kc, ['bin', 'getitem', ['f', 'd'], ['sl', 0, 1]]])
+        out.append(['ch', 'list', ['f', 'a'], [kc, ['f', 'b']]])
+        out.append(['ch', 'pos', ['f', 'a'], [['f', 'b'], kc, kc]])
+        out.append(['ite', 'pos', ['f', 'a'], kc, ['f', 'b']])
+        out.append(['ite', 'list', ['bin', 'lt', ['f', 'a'], ['f', 'b']], ['f', 'b'], kc])
+        for other in (['ct', [3, 4]], ['c', 7]):
+            ch = ['ch', 'dict', ['f', 'a'], {0: kc, 1: other}]
+            out.append(ch)
+            out.append(['bin', 'getitem', ch, ['c', 0]])
+            out.append(['bin', 'getitem', ch, ['f', 'b']])
+            out.append(['un', 'len', ch])
+    return out
 
 
 def depth1_int():
@@ -157,6 +185,8 @@ def build(t, fields):
         return fields[t[1]]
     if k == 'c':
         return t[1]
+    if k == 'ct':
+        return tuple(t[1])
     if k == 'sl':
         return slice(t[1], t[2])
     if k == 'bin':
@@ -195,6 +225,8 @@ def eager(t, vals):
         return vals[t[1]]
     if k == 'c':
         return t[1]
+    if k == 'ct':
+        return tuple(t[1])
     if k == 'sl':
         return slice(t[1], t[2])
     if k == 'bin':
@@ -228,6 +260,8 @@ def render(t):
         return t[1]
     if k == 'c':
         return repr(t[1])
+    if k == 'ct':
+        return repr(tuple(t[1]))
     if k == 'sl':
         return '%s:%s' % ('' if t[1] is None else t[1], '' if t[2] is None else t[2])
     sym = {'add': '+', 'sub': '-', 'mul': '*', 'truediv': '/', 'floordiv': '//', 'mod': '%', 'pow': '**', 'le': '<=', 'lt': '<',
@@ -315,7 +349,26 @@ def snippet(t, vals, channel):
 # ---------------------------------------------------------------------------------------------
 def check_tree_direct(t, K, fields, compile_expr_into_callable, st, fam):
     try:
-        expr = build(t, fields)
+        if fam == 'const-kinds':
+            # Python's own operator dispatch decides whether such a text IS a deferred expression: a constant whose type refuses the
+            # operand outright (tuple * field raises instead of deferring to the field) or folds it on the spot (b'' % field treats the
+            # field as a mapping) leaves nothing deferred to judge
+            import traceback
+            import bisturi
+            from bisturi.deferred import UnaryExpr, BinaryExpr, NaryExpr
+            from bisturi.field import Field
+            try:
+                expr = build(t, fields)
+            except Exception as e:
+                if not any(fr.filename.startswith(bisturi.__path__[0]) for fr in traceback.extract_tb(e.__traceback__)):
+                    st.inc('not_expressible')
+                    return
+                raise
+            if not isinstance(expr, (UnaryExpr, BinaryExpr, NaryExpr, Field)):
+                st.inc('not_expressible')
+                return
+        else:
+            expr = build(t, fields)
         fn = compile_expr_into_callable(expr)
     except Exception as e:
         st.violate('build-fails ' + fam, 'building/compiling %s raised %r' % (render(t), e), {'tree': t, 'channel': 'direct'})
@@ -550,7 +603,7 @@ def sibling_public_pairs():
 
 
 def families(tier):
-    fams = [('int-d1', depth1_int()), ('seq', seq_family()), ('nary', nary_family())]
+    fams = [('int-d1', depth1_int()), ('seq', seq_family()), ('nary', nary_family()), ('const-kinds', const_kind_family())]
     return fams
 
 
@@ -644,7 +697,7 @@ def run(tier):
         'public_classes': st.n.get('public_classes', 0),
         'rule': 'all expression trees of depth <=1 and %s over 18 binary operators in every operand order (field/const/sub-expression), '
                 'neg/invert/truth, plus the sequence family (index, constant slices, len, ==/!=) and the n-ary family (chooses in list/positional/'
-                'dict/keyword form, if_true_then_else), plus groups of sibling expressions over the same fields that differ only in equal-comparing constants of different type (2/2.0, 1/True/1.0, 0/False/0.0) compiled side by side; operands a,b in -2..3 (depth-1 trees also 7, 8, 31..33, 63..65, 100, 127, -128), s in [],[0],[1,2,3], d in b"",b"ab"; '
+                'dict/keyword form, if_true_then_else), plus constants of every kind (tuples of length 0..3, None, float, text, empty/non-empty strings and lists) as operand in either position, as option and indexed afterwards, plus groups of sibling expressions over the same fields that differ only in equal-comparing constants of different type (2/2.0, 1/True/1.0, 0/False/0.0) compiled side by side; operands a,b in -2..3 (depth-1 trees also 7, 8, 31..33, 63..65, 100, 127, -128), s in [],[0],[1,2,3], d in b"",b"ab"; '
                 'states = distinct (ok/exception, result type or exception class); the depth-1 trees and the families once more in child interpreters started with -O' % (
                     'all depth-2 trees' if tier == 'thorough' else 'depth-2 trees nested on one side'),
         'exhaustive': True,
